@@ -34,7 +34,8 @@ SPEC = {
              "collection on and at least one rank is traced; distinct = distinct case."),
     "shards": {"quick": 16, "thorough": 16},
     "min_counts": {"quick": {"evaluations": 150, "differential_runs": 150, "op_executions_tapped": 1000,
-                             "numiters_checked": 150, "isolation_sessions": 200, "dump_compares": 300, "conv_runs": 60}},
+                             "numiters_checked": 150, "isolation_sessions": 200, "dump_compares": 300, "conv_runs": 60,
+                             "nary_runs": 60, "conv_runs_with_prebuilt_projections": 20}},
     "assumptions": [
         "num_cached_uses is configuration, not session state: it is set to the same value before every run of the kernel under test",
         "counting rule for adds follows the documented choice: an accumulate into a zero-valued box is an update, not an add",
@@ -57,7 +58,16 @@ def generate(rng, tier, shard, nshards, mon):
             from fvmon import gen
             yield {"kind": "conv", "i": gen.rand_leaf_spec(rng, W, 0.7, 0.0, 0), "f": gen.rand_leaf_spec(rng, S, 0.8, 0.0, 0),
                    "W": W, "S": S, "sp": rng.choice(["none", "plain", "boxed", "boxed"]),
+                   # the projected (lazy) fibers may be built in the loop, before the session, or used by an earlier session too
+                   "build": rng.choice(["inline", "inline", "before-session", "previous-session"]),
                    "traces": rng.choice(["all", "all", "some", "none"]), "ncu": rng.choice([2, 3, 1000])}
+            continue
+        if i % 6 == 2:
+            # three or four operands co-iterated on one rank, as nested `&`, as one flat Fiber.intersection(...), or leader-follower
+            spec = kernels.rand_spec(rng, family=rng.choice(kernels.FAMILIES3), tiles=False)
+            spec["style"] = rng.choice(["two-finger", "two-finger", "leader-follower"])
+            yield {"kind": "nary", "spec": spec, "flat": rng.random() < 0.6, "ncu": rng.choice([2, 1000]),
+                   "traces": [[kernels.rid(v), "iter"] for v in spec["order"] if rng.random() < 0.5]}
             continue
         spec = kernels.rand_spec(rng, tiles=True)
         lv = spec["order"]
@@ -208,7 +218,14 @@ def _conv(case, prefix, collect):
     sp = None
     if case["sp"] != "none" and len(i_w.coords) > 0:
         sp = Payload(0) if case["sp"] == "boxed" else 0
-    if collect:
+    kw = {} if sp is None else {"start_pos": sp}
+    build = case.get("build", "inline") if collect else "inline"
+    hoisted = {}
+    if build != "inline":
+        for s in f_s.coords:
+            hoisted[s] = i_w.project(trans_fn=lambda w, s=s: w - s, interval=(0, Q), rank_id="Q", tick=True, **kw)
+
+    def begin():
         Metrics.setNumCachedUses(case["ncu"])
         Metrics.beginCollect(prefix)
         if case["traces"] != "none":
@@ -218,9 +235,19 @@ def _conv(case, prefix, collect):
                 names = names[::2]
             for r, tt in names:
                 Metrics.trace(r, type_=tt)
+    if collect and build == "previous-session":
+        # an earlier session walks the same projected fibers (into a scratch output)
+        begin()
+        scratch = Tensor(rank_ids=["Q"], shape=[Q]).getRoot()
+        for s, f_val in f_s:
+            for q, (o_ref, i_val) in (scratch << hoisted[s]).iterOccupancy(tick=False):
+                pass
+        Metrics.endCollect()
+    if collect:
+        begin()
     for s, f_val in f_s:
-        kw = {} if sp is None else {"start_pos": sp}
-        lazy = o_q << i_w.project(trans_fn=lambda w, s=s: w - s, interval=(0, Q), rank_id="Q", tick=True, **kw)
+        src = hoisted[s] if build != "inline" else i_w.project(trans_fn=lambda w, s=s: w - s, interval=(0, Q), rank_id="Q", tick=True, **kw)
+        lazy = o_q << src
         for q, (o_ref, i_val) in lazy.iterOccupancy(tick=False):
             old = Payload.get(o_ref)
             o_ref += i_val * f_val
@@ -254,6 +281,8 @@ def _run_conv(case, mon):
             mon.violation(f"conv-under-collection:raised:{type(e).__name__}", f"projection kernel raised {type(e).__name__}: {e}; {case}")
             return
         mon.count("conv_runs")
+        if case.get("build", "inline") != "inline":
+            mon.count("conv_runs_with_prebuilt_projections")
         mon.count("differential_runs")
         want = {}
         iv, fv = dict((c, v) for c, v in case["i"]), dict((c, v) for c, v in case["f"])
@@ -280,9 +309,64 @@ def _run_conv(case, mon):
         shutil.rmtree(tmp, ignore_errors=True)
 
 
+def _run_nary(case, mon):
+    spec = case["spec"]
+    nested = not case["flat"]
+    tap = _counter()
+    tmp = tempfile.mkdtemp(prefix="fv15n-")
+    what = f"kernel {spec['ops']}->{spec['out']!r} order={spec['order']} style={spec['style']} flat={case['flat']}"
+    try:
+        try:
+            tensors, Z, lvars, zl = kernels.build(spec)
+            kernels.execute(spec, tensors, Z, lvars, zl, nested_and=nested)
+            z_off = kernels.z_content(spec, Z, zl)
+            tensors, Z, lvars, zl = kernels.build(spec)
+            obs = _Bodies()
+            Metrics.setNumCachedUses(case["ncu"])
+            Metrics.beginCollect(os.path.join(tmp, "n"))
+            for r, tt in case["traces"]:
+                Metrics.trace(r, type_=tt)
+            tap.reset()
+            tap.active = True
+            try:
+                kernels.execute(spec, tensors, Z, lvars, zl, observer=obs, nested_and=nested)
+            finally:
+                tap.active = False
+            Metrics.endCollect()
+            dump = {k: dict(v) for k, v in (Metrics.dump() or {}).items()}
+            z_on = kernels.z_content(spec, Z, zl)
+        except BaseException as e:      # noqa
+            if isinstance(e, KeyboardInterrupt):
+                raise
+            _abort_session()
+            mon.violation(f"kernel-under-collection:raised:{type(e).__name__}:nary", f"{what} raised {type(e).__name__}: {e}")
+            return
+        mon.count("nary_runs")
+        mon.count("differential_runs")
+        mon.check(z_off == kernels.dense(spec), "nary:result", f"{what}: result {z_off}, dense {kernels.dense(spec)}")
+        mon.check(z_on == z_off, "transparency:output-differs", f"{what}: output differs between collection off and on")
+        tally = obs.tally
+        tapped = tap.expected_metrics()
+        mon.count("op_executions_tapped", sum(tap.counts.values()))
+        mon.check(tapped == tally, "exactness:library-runs-payload-arithmetic-of-its-own",
+                  f"{what}: operator executions tapped inside the session {tapped} differ from what the kernel body executed {tally}")
+        comp = dump.get("Compute", {})
+        for metric, w in tally.items():
+            mon.check(comp.get(metric, 0) == w, f"exactness:{metric}", f"{what}: Metrics reports {metric}={comp.get(metric, 0)}, the kernel executed {w}")
+        if tally["payload_mul"] >= 2:
+            mon.nontrivial()
+        mon.state(("nary", spec["style"], case["flat"], tally["payload_mul"]))
+    finally:
+        _abort_session()
+        shutil.rmtree(tmp, ignore_errors=True)
+
+
 def run_case(case, mon):
     if case.get("kind") == "conv":
         _run_conv(case, mon)
+        return
+    if case.get("kind") == "nary":
+        _run_nary(case, mon)
         return
     spec = case["spec"]
     traces = [tuple(t) for t in case["traces"]]
